@@ -1578,3 +1578,342 @@ func ruleC04R7(c *Ctx) {
 		})
 	}
 }
+
+func init() {
+	registerRule(&RuleInfo{ID: "C07.R8", Title: "a segment-local doc number is used with the segment it was computed for", Floor: 3, Run: ruleC07R8,
+		Covers: "every use of the local number returned by Snapshot.segmentIndexAndLocalDocNumFromGlobal as an argument of a per-segment call"})
+	registerRule(&RuleInfo{ID: "C07.R9", Title: "a failed constructor's children are closed by one party only", Floor: 0, Run: ruleC07R9,
+		Covers: "call sites in the query and searcher packages that close a list of searchers after the callee they handed the list to failed"})
+	registerRule(&RuleInfo{ID: "C09.R6", Title: "a hit enters the store only after it was compared with the search-after key", Floor: 1, Run: ruleC09R6,
+		Covers: "every path of the collectors from a hit to the store when a search-after key is set"})
+	registerRule(&RuleInfo{ID: "C12.R7", Title: "bytes peeked from the read buffer are not retained by a decoded value", Floor: 0, Run: ruleC12R7,
+		Covers: "every call in package index that builds a value on top of the bytes it is given (roaring FromBuffer / FromUnsafeBytes)"})
+}
+
+// ---- C07.R8 ---------------------------------------------------------------------------------
+
+// segmentIndexAndLocalDocNumFromGlobal(n) yields a PAIR: the local number is meaningful in
+// that one segment only. Passing it to another segment's iterator (a loop that walks on to the
+// following segments with the same local number) skips every posting of those segments whose
+// local number is smaller.
+func ruleC07R8(c *Ctx) {
+	pairFn := c.Method(pkgIndex, "Snapshot", "segmentIndexAndLocalDocNumFromGlobal")
+	n := 0
+	for _, fn := range c.FuncsIn(pkgIndex) {
+		eachInstr(fn, func(in ssa.Instruction) {
+			ci, ok := in.(*ssa.Call)
+			if !ok || ci.Common().StaticCallee() != pairFn {
+				return
+			}
+			idx, local := resultValue2(ci, 0), resultValue2(ci, 1)
+			if local == nil || local.Referrers() == nil {
+				return
+			}
+			for _, r := range *local.Referrers() {
+				use, ok := r.(*ssa.Call)
+				if !ok {
+					continue
+				}
+				isArg := false
+				for _, a := range use.Common().Args {
+					if a == local {
+						isArg = true
+					}
+				}
+				if !isArg {
+					continue
+				}
+				n++
+				key := fmt.Sprintf("local doc number use #%d in %s", n, FuncName(fn))
+				// the segment the call addresses: receiver / first argument taken from a per-segment list
+				recv, _ := recvAndArgs(use.Common())
+				byIdx := idx != nil && recv != nil && dependsOn(recv, func(y ssa.Value) bool { return y == idx })
+				viaField := false
+				if !byIdx && recv != nil && idx != nil {
+					// the index was first stored into a field (i.segmentOffset = segIndex) and read back
+					eachInstr(fn, func(g ssa.Instruction) {
+						if st, ok := g.(*ssa.Store); ok && st.Val == idx {
+							if fa, ok := st.Addr.(*ssa.FieldAddr); ok && dependsOnField(recv, fieldVar(fa)) && st.Block().Dominates(use.Block()) {
+								viaField = true
+							}
+						}
+					})
+				}
+				h := enclosingLoopHeader(use.Block())
+				inLoop := h != nil && !naturalLoop(h)[ci.Block()]
+				c.Check((byIdx || viaField) && !inLoop, key, c.Pos(use.Pos()), "addresses the segment of the paired index, outside any loop over segments",
+					fmt.Sprintf("the local number is handed to a per-segment call that is not tied to the paired segment index (indexed by it: %v, through a field set from it: %v, inside a loop that the pair was computed outside of: %v): in another segment the same local number skips postings", byIdx, viaField, inLoop))
+			}
+		})
+	}
+}
+
+// ---- C07.R9 ---------------------------------------------------------------------------------
+
+// closesElementsOf: fn calls Close on elements of the slice value s (a loop over s).
+func closesElementsOf(fn *ssa.Function, s ssa.Value) []ssa.Instruction {
+	var rv []ssa.Instruction
+	eachInstr(fn, func(in ssa.Instruction) {
+		cc := callOf(in)
+		if cc == nil || callMethodName(cc) != "Close" {
+			return
+		}
+		recv, _ := recvAndArgs(cc)
+		if recv == nil {
+			return
+		}
+		if dependsOnStop(recv, func(y ssa.Value) bool {
+			ia, ok := y.(*ssa.IndexAddr)
+			return ok && (ia.X == s || sameBase(ia.X, s))
+		}, func(y ssa.Value) bool {
+			_, isCall := y.(*ssa.Call)
+			return isCall
+		}) {
+			rv = append(rv, in)
+		}
+	})
+	return rv
+}
+
+// When a constructor that was handed a list of open searchers fails, somebody has to close
+// them - but only one party. A caller that closes the list on the callee's error path while
+// the callee (on an error path of its own) closes its parameter closes every searcher twice;
+// a term searcher's postings iterator then sits twice in the snapshot's pool and is handed to
+// two searchers of a later query.
+func ruleC07R9(c *Ctx) {
+	n := 0
+	var fns []*ssa.Function
+	for _, fn := range c.SrcFuncs() {
+		p := funcPkgPath(fn)
+		if p == modPath || strings.HasPrefix(p, pkgSearch) {
+			fns = append(fns, fn)
+		}
+	}
+	for _, fn := range fns {
+		eachInstr(fn, func(in ssa.Instruction) {
+			ci, ok := in.(*ssa.Call)
+			if !ok {
+				return
+			}
+			callee := ci.Common().StaticCallee()
+			if callee == nil || callee.Blocks == nil || fnErrIdx(callee) < 0 {
+				return
+			}
+			ev := errResult(ci)
+			if ev == nil {
+				return
+			}
+			for k, arg := range ci.Common().Args {
+				if _, isSlice := arg.Type().Underlying().(*types.Slice); !isSlice || k >= len(callee.Params) {
+					continue
+				}
+				// the caller closes the elements of arg behind the callee's error
+				var callerCloses []ssa.Instruction
+				for _, cl := range closesElementsOf(fn, arg) {
+					dominated := false
+					eachInstr(fn, func(g ssa.Instruction) {
+						iff, ok := g.(*ssa.If)
+						if !ok {
+							return
+						}
+						b, ok := iff.Cond.(*ssa.BinOp)
+						if !ok || b.Op != token.NEQ && b.Op != token.EQL || b.X != ev && b.Y != ev {
+							return
+						}
+						edge := 0
+						if b.Op == token.EQL {
+							edge = 1
+						}
+						if edgeDominates(iff, edge, cl.Block()) {
+							dominated = true
+						}
+					})
+					if dominated {
+						callerCloses = append(callerCloses, cl)
+					}
+				}
+				if len(callerCloses) == 0 {
+					continue
+				}
+				n++
+				key := fmt.Sprintf("searchers closed after the failure of %s in %s", FuncName(callee), FuncName(fn))
+				// does the callee (or a function it hands the list on to) close its parameter too?
+				var calleeCloses func(f *ssa.Function, pk int, d int) string
+				calleeCloses = func(f *ssa.Function, pk int, d int) string {
+					if f == nil || f.Blocks == nil || pk >= len(f.Params) || d > 3 {
+						return ""
+					}
+					if cl := closesElementsOf(f, f.Params[pk]); len(cl) > 0 {
+						return c.Pos(cl[0].Pos())
+					}
+					res := ""
+					eachInstr(f, func(g ssa.Instruction) {
+						c2, ok := g.(*ssa.Call)
+						if !ok || res != "" {
+							return
+						}
+						for j, a := range c2.Common().Args {
+							if a == ssa.Value(f.Params[pk]) {
+								res = calleeCloses(c2.Common().StaticCallee(), j, d+1)
+							}
+						}
+					})
+					return res
+				}
+				where := calleeCloses(callee, k, 0)
+				c.Check(where == "", key, c.Pos(callerCloses[0].Pos()), "the callee does not close the list it was given",
+					"the caller closes the searchers when the callee fails, and the callee closes the same list at "+where+": every searcher is closed twice and its postings iterator is put into the pool twice")
+			}
+		})
+	}
+	if n == 0 {
+		c.OK("no caller closes a list of searchers after a failed constructor", "-", "nothing to pair")
+	}
+}
+
+// ---- C09.R6 ---------------------------------------------------------------------------------
+
+// With a search-after key set, a hit at or before the key belongs to an earlier page. It must
+// be compared with the key on EVERY path to the store, also once the store has overflowed
+// (the "lowest hit already pushed out" shortcut must not replace that comparison).
+func ruleC09R6(c *Ctx) {
+	cmp := c.Method(pkgSearch, "SortOrder", "Compare")
+	dm := c.Named(pkgSearch, "DocumentMatch")
+	n := 0
+	for _, fn := range c.FuncsIn(pkgSearch + "/collector") {
+		if fn.Parent() != nil {
+			continue
+		}
+		// the pseudo-match field (assigned only from literals, see C09.R4) and the store insertion
+		var afterField *types.Var
+		var adds []ssa.Instruction
+		eachInstr(fn, func(in ssa.Instruction) {
+			cc := callOf(in)
+			if cc == nil {
+				return
+			}
+			if cc.IsInvoke() && strings.HasPrefix(cc.Method.Name(), "Add") {
+				for _, a := range cc.Args {
+					if namedOf(a.Type()) == dm {
+						adds = append(adds, in)
+					}
+				}
+			}
+		})
+		if len(adds) == 0 {
+			continue
+		}
+		st0, ok := methodRecvNamed(fn).Underlying().(*types.Struct)
+		if methodRecvNamed(fn) == nil || !ok {
+			continue
+		}
+		for i := 0; i < st0.NumFields(); i++ {
+			if st0.Field(i).Name() == "searchAfter" && namedOf(st0.Field(i).Type()) == dm {
+				afterField = st0.Field(i)
+			}
+		}
+		if afterField == nil {
+			continue
+		}
+		n++
+		key := "hits of " + FuncName(fn) + " are compared with the search-after key before they reach the store"
+		const fCompared uint64 = 1
+		var problems []string
+		sm := &Summarizer{}
+		sm.Follow = func(f *ssa.Function) bool { return methodRecvNamed(f) == methodRecvNamed(fn) }
+		sm.OnInstr = func(_ *ssa.Function, in ssa.Instruction, st *PState) bool {
+			if ci, ok := in.(*ssa.Call); ok && ci.Common().StaticCallee() == cmp {
+				for _, a := range ci.Common().Args {
+					if f, _ := loadedField(a); f == afterField {
+						st.Flags |= fCompared
+					}
+				}
+			}
+			return true
+		}
+		// whether a key is set at all: the nil test of the field
+		var afterLoads []ssa.Value
+		eachInstr(fn, func(in ssa.Instruction) {
+			if v, ok := in.(ssa.Value); ok {
+				if f, _ := loadedField(v); f == afterField {
+					afterLoads = append(afterLoads, v)
+				}
+			}
+		})
+		ex := sm.Explorer(fn)
+		for _, v := range afterLoads {
+			if ex.Keep == nil {
+				ex.Keep = map[ssa.Value]bool{}
+			}
+			ex.Keep[v] = true
+		}
+		base := ex.OnInstr
+		ex.OnInstr = func(in ssa.Instruction, st *PState) bool {
+			if base != nil {
+				base(in, st)
+			}
+			for _, ad := range adds {
+				if in == ad && st.Flags&fCompared == 0 {
+					known := false
+					for _, v := range afterLoads {
+						if st.Eval(v) == TriNo {
+							known = true // no key set on this path
+						}
+					}
+					if !known {
+						problems = append(problems, "a hit reaches the store at "+c.Pos(in.Pos())+" on a path where a search-after key may be set and the hit was not compared with it")
+					}
+				}
+			}
+			return true
+		}
+		ex.Run()
+		if ex.Exceeded || sm.Exceeded {
+			c.Undecided(key, c.Pos(fn.Pos()), "path exploration did not finish")
+			continue
+		}
+		c.Check(len(problems) == 0, key, c.Pos(fn.Pos()), "every path to the store either knows that no key is set or passed Compare(hit, key)", uniqJoin(problems))
+	}
+}
+
+// ---- C12.R7 ---------------------------------------------------------------------------------
+
+// bufio.Reader.Peek returns a view of the reader's internal buffer, valid until the next
+// read. A decoder that builds a value ON TOP of such bytes (roaring's FromBuffer /
+// FromUnsafeBytes keep pointing into the slice) decodes correctly and then silently changes
+// when the buffer is refilled: a snapshot reads back with other deleted sets, checksum intact.
+func ruleC12R7(c *Ctx) {
+	isPeek := func(y ssa.Value) bool {
+		call, ok := y.(*ssa.Call)
+		if !ok {
+			return false
+		}
+		f := call.Common().StaticCallee()
+		return f != nil && f.Pkg != nil && f.Pkg.Pkg.Path() == "bufio" && f.Name() == "Peek"
+	}
+	n := 0
+	for _, fn := range c.FuncsIn(pkgIndex) {
+		eachInstr(fn, func(in ssa.Instruction) {
+			ci, ok := in.(*ssa.Call)
+			if !ok {
+				return
+			}
+			f := ci.Common().StaticCallee()
+			if f == nil || f.Pkg == nil || !strings.HasSuffix(f.Pkg.Pkg.Path(), "/roaring") || f.Name() != "FromBuffer" && f.Name() != "FromUnsafeBytes" && f.Name() != "FrozenView" {
+				return
+			}
+			n++
+			key := fmt.Sprintf("retaining decode #%d in %s", n, FuncName(fn))
+			bad := false
+			for _, a := range ci.Common().Args {
+				if _, isSlice := a.Type().Underlying().(*types.Slice); isSlice && dependsOn(a, isPeek) {
+					bad = true
+				}
+			}
+			c.Check(!bad, key, c.Pos(ci.Pos()), "the bytes do not come from a Peek of the read buffer", "a bitmap is built on top of bytes that are a view of the buffered reader's internal buffer: it changes when the buffer is refilled")
+		})
+	}
+	if n == 0 {
+		c.OK("no decoded value of package index is built on top of its input bytes", "-", "no retaining decode call present")
+	}
+}
